@@ -103,6 +103,48 @@ def generate():
     v, why = astlib.try_flag(every_path)
     out.append("Definition use_fsync_on_every_write_path : bool := %s.%s" % (astlib.coq_bool(bool(v)), "" if why is None else " (* %s *)" % why))
 
+    def process_independent():
+        h = astlib.module("klongpy/db/helpers.py")
+        fn = astlib.find_func(h, "key_to_file_path")
+        called = set()
+        todo, seen = [fn], set()
+        while todo:                       # follow helpers defined in the same module
+            f = todo.pop()
+            if f.name in seen:
+                continue
+            seen.add(f.name)
+            for n in ast.walk(f):
+                if isinstance(n, ast.Call):
+                    nm = n.func.id if isinstance(n.func, ast.Name) else (n.func.attr if isinstance(n.func, ast.Attribute) else None)
+                    called.add(nm)
+                    try:
+                        todo.append(astlib.find_func(h, nm))
+                    except Exception:
+                        pass
+        bad = called & {"hash", "id", "random", "randint", "randrange", "choice", "uuid1", "uuid4", "getpid", "time", "time_ns",
+                        "monotonic", "urandom", "getrandbits", "token_hex", "gettempdir", "mkstemp", "mkdtemp", "gethostname", "getcwd"}
+        if bad:
+            return False
+        return True
+    v, why = astlib.try_flag(process_independent)
+    out.append("Definition key_path_is_process_independent : bool := %s.%s" % (astlib.coq_bool(bool(v)), "" if why is None else " (* %s *)" % why))
+
+    def write_targets_only():
+        m = astlib.module("klongpy/db/file_cache.py")
+        fn = astlib.find_func(astlib.find_class(m, "FileCache"), "_write_file")
+        opens = [c for c in astlib.calls_in(fn, "open") if isinstance(c.func, ast.Name)]
+        if len(opens) != 1:
+            raise ShapeError("_write_file: exactly one open(...) expected")
+        target = ast.unparse(opens[0].args[0])
+        if target not in ("os.path.join(self.root_path, file_name)", "write_fname"):
+            raise ShapeError("_write_file opens %s, not the file of the key" % target)
+        for bad in ("replace", "rename", "renames", "remove", "unlink", "rmtree", "move", "copy", "copyfile", "link", "symlink", "truncate"):
+            if astlib.calls_in(fn, bad):
+                return False
+        return True
+    v, why = astlib.try_flag(write_targets_only)
+    out.append("Definition write_file_opens_target_only : bool := %s.%s" % (astlib.coq_bool(bool(v)), "" if why is None else " (* %s *)" % why))
+
     def write_file():
         m = astlib.module("klongpy/db/file_cache.py")
         cls = astlib.find_class(m, "FileCache")
@@ -185,12 +227,28 @@ def mark(i):
     try: os.unlink("/nonexistent-c17-marker-%d" % i)
     except OSError: pass
 n = 0
+failed = []
+def do_set(st, root, k, v):
+    try:
+        st.set(k, v)
+    except BaseException as e:
+        failed.append([root, k[:60], type(e).__name__ + ": " + str(e)[:80]])
 for job in jobs:
     root, sets = job[0], job[1]
-    conc = len(job) > 2 and job[2] == "set-during-load"
-    st = KeyValueStorage(root)
+    mode = job[2] if len(job) > 2 else ""
+    if len(job) > 3 and job[3]:
+        root = os.path.join(root, job[3])       # the store directory (may not exist yet) below the traced base directory
+    conc = mode == "set-during-load"
+    st = None
     last = len(sets) - 1
     for i, (k, size, fill) in enumerate(sets):
+        if st is None and not (conc and i == last):
+            mark(n); n += 1
+            st = KeyValueStorage(root)            # construction is part of the first set's segment
+            do_set(st, root, k, bytes([fill]) * size)
+            if mode == "hardlink" and not failed:
+                os.link(os.path.join(root, k), os.path.join(job[0], "snapshot-of-" + k.replace("/", "_")))
+            continue
         if conc and i == last:
             # the last set runs while a get of the same key is in flight on a FRESH store object: the load is held
             # inside an interposed open() of klongpy.db.file_cache until the set is parked in update_file
@@ -209,7 +267,7 @@ for job in jobs:
             g.start()
             gate["entered"].wait(60)
             mark(n); n += 1
-            t = threading.Thread(target=lambda: st.set(k, bytes([fill]) * size))
+            t = threading.Thread(target=lambda: do_set(st, root, k, bytes([fill]) * size))
             t.start()
             def parked():
                 fr = sys._current_frames().get(t.ident)
@@ -226,15 +284,28 @@ for job in jobs:
             del fcm.__dict__["open"]
             continue
         mark(n); n += 1
-        st.set(k, bytes([fill]) * size)
+        do_set(st, root, k, bytes([fill]) * size)
     mark(n); n += 1
     st.cache.executor.shutdown(wait=True)
+open(sys.argv[1] + ".failed", "w").write(json.dumps(failed))
 os._exit(0)
 '''
 
 
+_COMP = {}
+
+
+def comp_id(c):
+    """path component -> integer (injective within a run; single characters keep their code point)"""
+    if len(c) == 1:
+        return ord(c)
+    if c not in _COMP:
+        _COMP[c] = 1000000 + len(_COMP)
+    return _COMP[c]
+
+
 def key_to_name(k):
-    return [ord(c) for c in k.split("/")]
+    return [comp_id(c) for c in k.split("/")]
 
 
 def rel_name(root, path):
@@ -243,8 +314,10 @@ def rel_name(root, path):
         return []
     if rel.startswith(".."):
         return None
-    parts = rel.split(os.sep)
-    return [ord(p) if len(p) == 1 else -1 for p in parts]
+    return [comp_id(p) for p in rel.split(os.sep)]
+
+
+LAST_SET_FAILURES = []
 
 
 def strace_jobs(jobs, workdir):
@@ -258,6 +331,10 @@ def strace_jobs(jobs, workdir):
                         PY, "-W", "ignore", "-c", CHILD, jf], env=env, stdout=subprocess.PIPE, stderr=subprocess.PIPE, timeout=900)
     if p.returncode != 0:
         raise RuntimeError("strace child failed: %s" % p.stderr.decode()[-800:])
+    global LAST_SET_FAILURES
+    LAST_SET_FAILURES = json.load(open(jf + ".failed")) if os.path.exists(jf + ".failed") else []
+    if os.path.exists(jf + ".failed"):
+        os.unlink(jf + ".failed")
     segs = parse_strace(trf, [job[0] for job in jobs for _ in range(len(job[1]) + 1)])
     os.unlink(trf)
     os.unlink(jf)
@@ -352,7 +429,12 @@ def parse_strace(trf, roots):
             else:
                 cur.append([m1.group(1), nm])
             continue
-        m1 = re.match(r"(rename|renameat|renameat2|unlink|unlinkat|sync|syncfs)\(", rest)
+        m1 = re.match(r'(?:unlink\(|unlinkat\([^,]+, )"([^"]+)"', rest)
+        if m1:
+            if ret == 0:
+                cur.append(["unlink", rel_name(root, m1.group(1))])
+            continue
+        m1 = re.match(r"(rename|renameat|renameat2|link|linkat|sync|syncfs)\(", rest)
         if m1:
             cur.append([m1.group(1), [-1]])
     return per_set
@@ -371,7 +453,7 @@ def token(i):
     return [i + 1, 200, i + 1, 201]
 
 
-def real_to_checker_sets(sets, per_set):
+def real_to_checker_sets(sets, per_set, prefix=""):
     """recorded trace -> the checker's input, payloads replaced by unique tokens"""
     out = []
     for i, ((k, size, fill), evs) in enumerate(zip(sets, per_set)):
@@ -390,10 +472,10 @@ def real_to_checker_sets(sets, per_set):
             if e[0] == "write":
                 ev2.append(["write", e[1], pieces[wi]])
                 wi += 1
-            elif e[0] in ("mkdir", "open", "fsync", "close", "fsyncdir"):
+            elif e[0] in ("mkdir", "open", "fsync", "close", "fsyncdir", "unlink"):
                 ev2.append([e[0], e[1]])
             # anything else (rename, fsync-dir, ...) is outside the model: reported by the trace comparison
-        out.append([key_to_name(k), tok, ev2])
+        out.append([key_to_name(prefix + k), tok, ev2])
     return out
 
 
@@ -429,29 +511,44 @@ def check_traces(chk, rng, workdir, flags, bufsize):
     for j, seq in enumerate(seqs):
         root = os.path.join(workdir, "tr%d_r" % j)
         os.makedirs(root)
-        jobs.append([root, seq])
-    # one deterministic concurrent scenario: the last set runs while a get of the same key is in flight on a fresh store
-    conc_seq = [["o", 9, 70], ["k", 20, 71], ["k", 30, 72]]
-    conc_root = os.path.join(workdir, "trconc_r")
-    os.makedirs(conc_root)
-    jobs.append([conc_root, conc_seq, "set-during-load"])
-    seqs = seqs + [conc_seq]
+        jobs.append([root, seq, "", ""])
+    # special scenarios (deterministic):
+    #  - a store opened on a directory that does not exist yet (flat and nested): traced from the construction on
+    #  - an overwrite of a key whose file has a second hard link (a snapshot copy outside the store)
+    #  - key components of 201..255 characters; the written stores are read back by ANOTHER process (other hash seed)
+    #  - the last set runs while a get of the same key is in flight on a fresh store object
+    special = [
+        ("fresh_r", "store", "", [["a", 5, 65], ["d/e", 100, 66], ["a", 7, 67]]),
+        ("freshn_r", "x/y", "", [["b", 9, 68], ["b", 5000, 69], ["g/h/i", 3, 70]]),
+        ("hl_r", "st", "hardlink", [["k", 20, 71], ["k", 30, 72], ["d/e", 5, 73], ["d/e", 6, 74]]),
+        ("long_r", "", "", [["L" * 201, 5, 75], ["d/" + "M" * 255, 6, 76], ["N" * 230 + "/" + "P" * 210, 7, 77], ["L" * 201, 8, 78]]),
+        ("conc_r", "", "set-during-load", [["o", 9, 70], ["k", 20, 71], ["k", 30, 72]]),
+    ]
+    for nm, rel, mode, seq in special:
+        base = os.path.join(workdir, "tr" + nm)
+        os.makedirs(base)
+        jobs.append([base, seq, mode, rel])
+    seqs = seqs + [x[3] for x in special]
+    conc_seq = special[-1][3]
     try:
         all_sets = strace_jobs(jobs, workdir)
+        bad_reader = cross_process_read(chk, [(os.path.join(j[0], j[3]) if j[3] else j[0], j[1]) for j in jobs[-len(special):]])
     finally:
         for job in jobs:
             shutil.rmtree(job[0], ignore_errors=True)
     chk.count("concurrent_set_during_load_scenarios")
+    chk.count("fresh_root_and_hardlink_and_long_key_scenarios", 4)
     bad_img = recorded_final_images(chk, conc_seq, all_sets[-1], workdir)
     for j, seq in enumerate(seqs):
         per_set = all_sets[j]
+        prefix = (jobs[j][3] + "/") if jobs[j][3] else ""
         if len(per_set) != len(seq):
             raise RuntimeError("strace markers: %d sets, %d segments" % (len(seq), len(per_set)))
         lens = [serialize_len(s) for _, s, _ in seq]
-        model_sets = [[key_to_name(k), [0] * l] for (k, _, _), l in zip(seq, lens)]
+        model_sets = [[key_to_name(prefix + k), [0] * l] for (k, _, _), l in zip(seq, lens)]
         reqs.append(sx(["trace", 1 if fl else 0, 1 if uf else 0, 1 if sd else 0, bufsize, ["sets"] + model_sets]))
-        ck = real_to_checker_sets(seq, per_set)
-        keys = sorted(set(tuple(key_to_name(k)) for k in KEYS))
+        ck = real_to_checker_sets(seq, per_set, prefix)
+        keys = sorted(set(tuple(key_to_name(k)) for k in KEYS) | set(tuple(key_to_name(prefix + k)) for k, _, _ in seq))
         reqs.append(sx(["check", 1, ["keys"] + [list(k) for k in keys], ["sets"] + ck]))
         reqs.append(sx(["check", 0, ["keys"] + [list(k) for k in keys], ["sets"] + ck]))
         meta.append((seq, per_set, lens))
@@ -473,8 +570,9 @@ def check_traces(chk, rng, workdir, flags, bufsize):
             # first failing prefix
             i_fail = None
             for i in range(1, len(seq) + 1):
-                ck = real_to_checker_sets(seq[:i], per_set[:i])
-                keys = sorted(set(tuple(key_to_name(k)) for k in KEYS))
+                prefix = (jobs[j][3] + "/") if jobs[j][3] else ""
+                ck = real_to_checker_sets(seq[:i], per_set[:i], prefix)
+                keys = sorted(set(tuple(key_to_name(k)) for k in KEYS) | set(tuple(key_to_name(prefix + k)) for k, _, _ in seq))
                 r = chk.run_model([sx(["check", 1, ["keys"] + [list(k) for k in keys], ["sets"] + ck])])[0]
                 if r != 1:
                     i_fail = i - 1
@@ -493,9 +591,62 @@ def check_traces(chk, rng, workdir, flags, bufsize):
             if bad_prop is None:
                 bad_prop = rep
         chk.sample({"sets": [[k, l] for (k, _, _), l in zip(seq, lens)], "trace": rt[0], "journalled_ok": jr_ok, "strict_ok": strict_ok}, limit=3)
+    if bad_reader is not None:
+        bad_prop = bad_reader
+    if LAST_SET_FAILURES:
+        root, k, why = LAST_SET_FAILURES[0]
+        bad_prop = {"kind": "set-raised", "store": os.path.basename(root), "key": k, "error": why,
+                    "what": "a key-value set of a legal key raised %s (key %s)" % (why, k)}
     if bad_prop is None and bad_img is not None:
         bad_prop = bad_img
     return bad_prop, bad_corr, findings
+
+
+READER = r'''
+import sys, json
+from klongpy.core import KLONG_UNDEFINED
+from klongpy.db.sys_fn_kvs import KeyValueStorage
+out = []
+for root, sets in json.loads(open(sys.argv[1]).read()):
+    st = KeyValueStorage(root)
+    exp = {}
+    for k, size, fill in sets:
+        exp[k] = bytes([fill]) * size
+    for k, v in exp.items():
+        try:
+            got = st.get(k)
+            ok = got is not KLONG_UNDEFINED and got == v
+            how = "undefined" if got is KLONG_UNDEFINED else ("ok" if ok else "a different value")
+        except BaseException as e:
+            ok, how = False, type(e).__name__
+        out.append([root, k[:40] + ("...(%d chars)" % len(k) if len(k) > 40 else ""), ok, how])
+print("READ " + json.dumps(out))
+'''
+
+
+def cross_process_read(chk, stores):
+    """the stores written by the traced child (PYTHONHASHSEED=0) are read back by ANOTHER process with another hash seed:
+    every completed set must read its value (nothing was lost: this is the crash image 'none')"""
+    jf = os.path.join(os.path.dirname(stores[0][0].rstrip("/")) if False else os.path.dirname(stores[0][0]), "reader-jobs.json")
+    jf = os.path.join(VERIF, ".work", "C17-reader-%d.json" % os.getpid())
+    with open(jf, "w") as f:
+        json.dump(stores, f)
+    env = dict(os.environ, PYTHONPATH=REPO + ":" + VERIF, PYTHONHASHSEED="12345")
+    try:
+        p = subprocess.run([PY, "-W", "ignore", "-c", READER, jf], env=env, stdout=subprocess.PIPE, stderr=subprocess.PIPE, timeout=300)
+    finally:
+        os.unlink(jf)
+    lines = [l for l in p.stdout.decode().split("\n") if l.startswith("READ ")]
+    if not lines:
+        raise RuntimeError("reader child failed: %s" % p.stderr.decode()[-600:])
+    for root, k, ok, how in json.loads(lines[0][5:]):
+        chk.count("evaluations")
+        chk.count("cross_process_reads")
+        if not ok:
+            return {"kind": "reopen-in-another-process", "store": os.path.basename(root), "key": k, "read": how,
+                    "writer_PYTHONHASHSEED": "0", "reader_PYTHONHASHSEED": "12345",
+                    "what": "a store written by one process and opened by another (nothing lost) reads key %s as %s instead of its completed value" % (k, how)}
+    return None
 
 
 def recorded_final_images(chk, seq, per_set, workdir):
